@@ -12,7 +12,7 @@ import gen
 import impl
 
 RULE = ("fixed families at scale: reflection-free cascade of N two-ports with exact unit-modulus rational phases "
-        "(closed form: product), cascade of N reflection-free attenuators with 300-600 dB of total loss (closed form, error relative to the tiny transmission), cascade of N weakly reflecting lossy two-ports (reference: dense numpy network solve), "
+        "(closed form: product), the same cascade declared out of order (head of the line placed last; everything shuffled), cascade of N reflection-free attenuators with 300-600 dB of total loss (closed form, error relative to the tiny transmission), cascade of N weakly reflecting lossy two-ports (reference: dense numpy network solve), "
         "n x n mesh of beam splitters and phase shifters (unitarity + dense reference), lossy resonant chain of "
         "mirror-waveguide cells, d-level nest of a two-port, the lossy cascade cut into three large sub-solvers (placed as structures and placed with put()), a chain of phase shifters each with its own parameter name, meshes of directly connected couplers (10 and 13 modes; thorough up to 24); sizes quick 500 / 300 / 10x10 / 100 / 40 / 600 / 150, thorough "
         "2000 / 1000 / 20x20 / 400 / 60 / 3000 / 1000; distinct = family x size; all non-trivial")
@@ -47,17 +47,18 @@ def dense_reference(comps, links, exposed):
     return E.T @ B
 
 
-def build_chain(mats, name_prefix="c"):
-    """real solver: chain of two-ports (pins a,b); exposed: first a as 'IN', last b as 'OUT'"""
+def build_chain(mats, name_prefix="c", order=None, link_order=None):
+    """real solver: chain of two-ports (pins a,b); exposed: first a as 'IN', last b as 'OUT'; `order` = the order in which the
+    elements are declared (default: along the chain), `link_order` = the order in which the links are made"""
     L = impl.lk()
     sol = L.Solver()
     sts = []
     for k, S in enumerate(mats):
         m = L.Model(pin_dic={L.Pin("a"): 0, L.Pin("b"): 1}, Smatrix=np.array(S, complex))
-        st = L.Structure(model=m)
-        sol.add_structure(st)
-        sts.append(st)
-    for k in range(len(mats) - 1):
+        sts.append(L.Structure(model=m))
+    for k in (order if order is not None else range(len(mats))):
+        sol.add_structure(sts[k])
+    for k in (link_order if link_order is not None else range(len(mats) - 1)):
         sol.connect(sts[k], "b", sts[k + 1], "a")
     sol.map_pins({L.Pin("IN"): (sts[0], L.Pin("a")), L.Pin("OUT"): (sts[-1], L.Pin("b"))})
     return sol
@@ -79,6 +80,29 @@ def family_cascade(ctx, n, rng):
     T = impl.solved_matrix(mod, ["IN", "OUT"])[0]
     R = np.array([[0, exact], [exact, 0]])
     return rel_err(T, R)
+
+
+def family_cascade_declared_out_of_order(ctx, n, rng):
+    """the reflection-free cascade with its elements declared in another order than along the line: the head of the line placed
+    last (a component added in front of an existing line), or everything shuffled; the links made in a shuffled order"""
+    ph = [PHASES[rng.randrange(len(PHASES))] for _ in range(n)]
+    mats = [[[0, complex(float(a), float(b))], [complex(float(a), float(b)), 0]] for a, b in ph]
+    prod = (Fraction(1), Fraction(0))
+    for z in ph:
+        prod = gen.cmul(prod, z)
+    exact = complex(float(prod[0]), float(prod[1]))
+    R = np.array([[0, exact], [exact, 0]])
+    worst = 0.0
+    for variant in ("head-last", "shuffled"):
+        order = list(range(1, n)) + [0] if variant == "head-last" else rng.sample(range(n), n)
+        links = list(range(n - 1))
+        if variant == "shuffled":
+            rng.shuffle(links)
+        else:
+            links = links[1:] + links[:1]
+        T = impl.solved_matrix(build_chain(mats, order=order, link_order=links).solve(), ["IN", "OUT"])[0]
+        worst = max(worst, rel_err(T, R))
+    return worst
 
 
 def family_lossy_cascade(ctx, n, rng):
@@ -304,7 +328,7 @@ def family_nest(ctx, depth, rng):
 def run(ctx):
     rng = ctx.subrng("c20")
     q = ctx.tier == "quick" and ctx.scale == 1
-    plan = [("cascade", family_cascade, 500 if q else 2000), ("lossy-cascade", family_lossy_cascade, 300 if q else 1000),
+    plan = [("cascade", family_cascade, 500 if q else 2000), ("cascade-out-of-order", family_cascade_declared_out_of_order, 500 if q else 2000), ("lossy-cascade", family_lossy_cascade, 300 if q else 1000),
             ("attenuating-cascade", family_attenuating, 400 if q else 2000),
             ("weak-reflection-cascade", family_weak_reflection, 400 if q else 2000),
             ("mesh", family_mesh, 10 if q else 20), ("resonant-chain", family_resonant, 100 if q else 400),
